@@ -8,6 +8,8 @@ import subprocess
 import sys
 import time
 
+V = os.path.dirname(os.path.dirname(os.path.abspath(__file__)))
+
 
 def main():
     d = os.path.abspath(sys.argv[1].rstrip("/"))
@@ -24,7 +26,7 @@ def main():
             print("PATCH DOES NOT APPLY", os.path.basename(d), r.stderr[:200]); return
         demo = subprocess.run(["/venv/bin/python", os.path.join(d, "demo.py")], capture_output=True, text=True,
                               env=dict(os.environ, PYTHONPATH=wt + "/src"), timeout=600)
-        chk = subprocess.run(["./check", pid, "--tier", tier], cwd="/verif", capture_output=True, text=True, timeout=3400,
+        chk = subprocess.run(["./check", pid, "--tier", tier], cwd=V, capture_output=True, text=True, timeout=3400,
                              env=dict(os.environ, VERIF_REPO=wt, VERIF_EVIDENCE_DIR="/tmp/verif-seed-evidence"))
     finally:
         subprocess.run(["git", "-C", "/repo", "worktree", "remove", "--force", wt])
